@@ -44,6 +44,12 @@ func runC01Types(c *Ctx, w *ATWorld) {
 		{"json", memdb.Column{Type: memdb.TJSON, Nullable: true}, `{"a": 1}`, `'{"b": 2}'`},
 		{"bigint-beyond-2^53", memdb.Column{Type: memdb.TBigInt, Nullable: true}, int64(9007199254740993), "9007199254740995"},
 		{"null", memdb.Column{Type: memdb.TVarchar, Length: 8, Nullable: true}, nil, "'x'"},
+		// UNSIGNED columns holding values above the signed range of their width
+		{"tinyint-unsigned", memdb.Column{Type: memdb.TTinyInt, Unsigned: true, Nullable: true}, int64(200), "250"},
+		{"smallint-unsigned", memdb.Column{Type: memdb.TSmallInt, Unsigned: true, Nullable: true}, int64(40000), "65535"},
+		{"int-unsigned", memdb.Column{Type: memdb.TInt, Unsigned: true, Nullable: true}, int64(3000000000), "4294967295"},
+		{"tinyint-unsigned-not-null", memdb.Column{Type: memdb.TTinyInt, Unsigned: true}, int64(200), "250"},
+		{"int-unsigned-not-null", memdb.Column{Type: memdb.TInt, Unsigned: true}, int64(3000000000), "4294967295"},
 	}
 	n := 0
 	for _, onlyCare := range []bool{true, false} {
